@@ -88,7 +88,7 @@ class KDMultiViewWrapper(KDWrapper):
             # set rng of transforms
             if self.seed is not None:
                 rng = np.random.default_rng(seed=self.seed + idx)
-                if isinstance(config.transform, (KDComposeTransform, KDStochasticTransform)):
+                if isinstance(config.transform, KDTransform):
                     config.transform.set_rng(rng)
             # sample views
             for _ in range(config.n_views):
